@@ -330,8 +330,28 @@ End EndBlock.
 Lemma Inv_clock : forall s t h, Inv s -> Inv (set_clock s t h).
 Proof. intros s t h I. apply (Inv_same s); [exact I | repeat split | reflexivity | reflexivity]. Qed.
 
-Theorem end_block_inv : forall t next burns converts s, Inv s -> Inv (end_block t next burns converts s).
+(* the validator part: the unbonding-id index and the not-bonded pool's balance, neither of which `Inv` speaks about *)
+Lemma valset_inv : forall vs s, Inv s -> Inv (valset_update vs s).
 Proof.
-  intros t next burns converts s I. unfold end_block. apply Inv_clock. apply staking_endblock_inv.
+  intros vs s I. unfold valset_update.
+  set (k' := set_unbidx (stake s) _). set (s1 := set_stake s k').
+  assert (I1 : Inv s1).
+  { destruct I as [W Q E B I36 G A]. constructor.
+    - destruct W. constructor; assumption.
+    - destruct Q. constructor; assumption.
+    - exact E.
+    - exact B.
+    - exact I36.
+    - exact G.
+    - exact A. }
+  destruct (v_pool vs =? 0); [exact I1|].
+  apply (Inv_frame s1); [exact I1 | repeat split | cbn [bal set_bal]; apply put_bal_nodup, (wf_bal s1 (iv_wf s1 I1)) | | apply (iv_gov s1 I1)].
+  intros a d Np Ng. cbn [cfg set_bal] in Np, Ng. rewrite bal_of_get. cbn [bal set_bal].
+  rewrite get_bal_put_other by (intros X; inversion X; contradiction). apply (iv_bal s1 I1 a d Np Ng).
+Qed.
+
+Theorem end_block_inv : forall t next burns converts vs s, Inv s -> Inv (end_block t next burns converts vs s).
+Proof.
+  intros t next burns converts vs s I. unfold end_block. apply Inv_clock. apply staking_endblock_inv. apply valset_inv.
   apply gov_endblock_inv. apply Inv_clock. exact I.
 Qed.
